@@ -93,6 +93,11 @@ type Sim struct {
 	// can only be named by call site + arrival counter - does not reduce the
 	// residual nondeterminism of timer ties (DESIGN.md 10.5).
 	YieldForeign bool
+	// YieldOnRelease makes the release of a contended lock a scheduling point
+	// (swarm option): without it the releaser always runs on to its next
+	// storage operation before a waiter gets the lock, which hides every
+	// check-then-act window that opens right after an Unlock.
+	YieldOnRelease bool
 	mu         sync.Mutex // protects the fields below; never held while parked
 	parkedOps  []*parked
 	tasks      map[uint64]*Task
@@ -116,6 +121,16 @@ type Sim struct {
 	// fault: e.g. the Raft state machine lagging several entries behind).
 	StallKind     string
 	StallPermille int
+	// Freeze ("long stall"): with FreezePermille chance per decision the task
+	// whose operation was chosen stays parked where it is for the next 8-55
+	// decisions (as long as anything else can run). "A pauses between two of its steps, B
+	// runs to completion, A resumes" is the shape of most atomicity violations;
+	// a memoryless scheduler reaches it with probability that decays
+	// geometrically in the length of B.
+	FreezePermille int
+	FreezesLeft    int
+	frozen         *Task
+	frozenLeft     int
 	// TickPerStep advances the simulated clock by this much before every
 	// scheduling decision (real clocks never stand still between two requests;
 	// code comparing timestamps with Before/After needs that).
@@ -258,6 +273,16 @@ func (s *Sim) Yield() bool {
 	}
 	a := s.active.Load()
 	return a != 0 && goid() != a
+}
+
+// Released implements simsync.Controller: the calling goroutine has released a
+// lock that others wait for. With YieldOnRelease it parks, so that the
+// scheduler decides whether it or a waiter proceeds first.
+func (s *Sim) Released() {
+	if !s.YieldOnRelease {
+		return
+	}
+	s.Gate("yield", "released "+callerSite(), false)
 }
 
 // Enqueue implements simsync.Controller: a goroutine is about to wait for a lock.
@@ -471,6 +496,19 @@ func (s *Sim) decideFault(p *parked) Fault {
 	return FaultNone
 }
 
+// SwarmFreeze draws the long-stall configuration of a run (off in half of them).
+func (s *Sim) SwarmFreeze() {
+	s.YieldOnRelease = s.Tape.Pick(2) == 1
+	switch s.Tape.Pick(4) {
+	case 2:
+		s.FreezePermille, s.FreezesLeft = 25, 1+s.Tape.Pick(3)
+	case 3:
+		s.FreezePermille, s.FreezesLeft = 80, 1+s.Tape.Pick(2)
+	default:
+		s.FreezePermille, s.FreezesLeft = 0, 0
+	}
+}
+
 // SetFaults configures random fault injection for the following Run calls.
 func (s *Sim) SetFaults(permille, max int, kinds ...Fault) {
 	s.FaultPermille = permille
@@ -490,6 +528,20 @@ func (s *Sim) Step() bool {
 	P := s.runnable()
 	if len(P) == 0 {
 		return false
+	}
+	if s.frozen != nil {
+		var others []*parked
+		for _, q := range P {
+			if q.task != s.frozen {
+				others = append(others, q)
+			}
+		}
+		if len(others) > 0 && s.frozenLeft > 0 {
+			P = others
+			s.frozenLeft--
+		} else {
+			s.frozen = nil
+		}
 	}
 	idx := -1
 	if s.cur != nil {
@@ -522,6 +574,26 @@ func (s *Sim) Step() bool {
 		if len(others) > 0 {
 			p = others[s.Tape.Pick(len(others))]
 			s.Faults["stall"]++
+		}
+	}
+	// long stall: the chosen operation is NOT released; its task stays parked
+	// right where it is while the others run
+	freezeP := s.FreezePermille
+	if strings.HasPrefix(p.desc, "ret get") || strings.HasPrefix(p.desc, "ret tx-get") || strings.HasPrefix(p.desc, "ret list") {
+		freezeP *= 4 // a value was read: the classic check-then-act window opens here
+	}
+	if freezeP > 0 && s.FreezesLeft > 0 && s.frozen == nil && len(P) > 1 && s.Tape.Chance(freezeP) {
+		var others []*parked
+		for _, q := range P {
+			if q.task != p.task {
+				others = append(others, q)
+			}
+		}
+		if len(others) > 0 {
+			s.frozen, s.frozenLeft = p.task, 8+s.Tape.Pick(48)
+			s.FreezesLeft--
+			s.Faults["long-stall"]++
+			p = others[s.Tape.Pick(len(others))]
 		}
 	}
 	f := s.decideFault(p)
